@@ -133,7 +133,8 @@ def add_task(task):
 
 def multi_add(sh, bindir, rep, steps, prs, lines):
     """several durations in ONE invocation: state left by one addition must not leak into the next"""
-    durs = ["%+d%s" % (k, u) for k, u in steps]
+    # (an unsigned duration after a negative one is positive: every other positive step goes without its plus sign)
+    durs = [("%d%s" if i and k > 0 and (i + k) % 2 == 0 else "%+d%s") % (k, u) for i, (k, u) in enumerate(steps)]
     if rep == "epoch":
         keep = [i for i, l in enumerate(lines) if not l.startswith("-")]
         lines = [lines[i] for i in keep]
